@@ -83,7 +83,7 @@ def main():
             "guard": "ironplc_verif",
             "enable": "RUSTFLAGS='--cfg ironplc_verif' (set by /verif/harness/.cargo/config.toml and drivers/vlib.py build())",
             "baseline_off_cmd": "cd /repo/compiler && cargo test --workspace --no-fail-fast --offline",
-            "source_commits": [],
+            "source_commits": ["6db0167ffadc87bed3adf33419fbc2f349b81482"],
             "add_only": True,
         },
         "engines": [
@@ -92,7 +92,11 @@ def main():
         ],
         "checks": checks,
         "not_applicable": na,
-        "notes": "All properties are observed through public interfaces; no source hook is compiled into ironplc at present (guard reserved).",
+        "notes": ("All properties are observed through public interfaces (parse_program, tokenize_program, stages::analyze, Project, write_to_string, the ironplcc binary over argv/stdio). "
+                  "One source hook exists (commit 6db0167): under --cfg ironplc_verif the Debug output of dsl::common::AddressAssignment also prints the address components, "
+                  "which the harness needs to compare direct addresses (C09/C01); with the guard off the original impl is compiled unchanged. "
+                  "Repairs of genuine defects are the unguarded 'fix:' commits listed in known_findings.json (fixed); open defects are listed there under findings. "
+                  "drivers/seeded.py + seeded/ hold the seeded changes used to test the checks (never applied to /repo outside a test run)."),
     }
     json.dump(m, open(os.path.join(V, "MANIFEST.json"), "w"), indent=1)
 if __name__ == "__main__":
